@@ -77,7 +77,9 @@ RI_DEFS = {'XV_RI_FIELDS': ' '.join('XV_RI_FIELD(%s,%s)' % (n, (i.strip() or '0'
 RI = dict(members=[n for n, i in RI_FIELDS])
 LR_MEMBERS = ['_writer_mutex', '_version_index', '_lr_indicator', '_read_indicator1', '_read_indicator2', '_left', '_right']
 
-ENV3 = 'environment = the reader quantifier of the property: one tracked reader following the contract of lr.read.bracket (exclusion is asserted for it) and two more that arrive/depart on either indicator, all by executing the real arrive()/depart(); between two accesses of the writer the tracked one takes up to 6 steps and the others up to 3 each, interleaved (complete in terms of reader states and occupancy, run env_closed); the second writer is excluded by the mutex'
+ENV_REAL = ('0..3 readers (one tracked, two more) arrive and depart by executing the real arrive()/depart() before every atomic access of empty() and once before the call '
+            '(tracked up to 6 steps, the others up to 3 each per gap, interleaved); indicator starts freshly initialised + the readers inside')
+ENV3 = 'environment = the reader quantifier of the property: one tracked reader following the contract of lr.read.bracket (exclusion is asserted for it) and two more that arrive/depart on either indicator, as pure state machines (the indicator is seen only through the contract of empty()); between two accesses of the writer the tracked one takes up to 6 steps and the others up to 3 each, interleaved (complete in terms of reader states and occupancy, run env_closed); the second writer is excluded by the mutex'
 
 UNIT = dict(
   title='left_right: read / update / toggle_version_and_wait / wait_for_readers / read_indicator / read_guard / constructors (C13)',
@@ -86,7 +88,7 @@ UNIT = dict(
         '"applied to instance X at clock c, mutex held?, tracked reader state" and may throw); std::mutex is a held flag '
         '(lock = wait until free, then take); std::this_thread::yield() dropped; references (read_guard::_indicator, get_read_indicator\'s result) '
         'are pointers; RAII objects (read_guard, std::lock_guard) are lowered by the unit-local rule raii_pre/raii_post in unit.py: '
-        'declaration -> ctor call, every exit (return, exceptional, end) -> dtor call; default member initialisers are extracted as constants and applied by the ctor harness',
+        'declaration -> ctor call, every exit (return, exceptional, end) -> dtor call; default member initialisers are extracted as constants and applied by the ctor harness; struct read_indicator is generated from the std::atomic<uint64_t> NAME{init}; members found in the header (ri_fields in unit.py), so the unit does not depend on the indicator\'s representation; the writer-side runs (wait, toggle, update) use read_indicator::empty() through its contract lr.indicator.empty_linearizable (proved for the real text in run empty_int), arrive/depart/empty themselves are always the real text',
   assumptions=[
     'composition (Left-Right proof, Ramalhete & Correia 2015) from the per-operation obligations to linearizability of reads is argued, not machine-checked; '
     'the exclusion half of it IS checked (lr.update.exclusion) for one arbitrary tracked reader that follows the contract proved by lr.read.bracket, together with two further readers (3 readers in all, the quantifier of the property)',
@@ -160,7 +162,9 @@ UNIT = dict(
   runs=[
     dict(id='indicator', entry='h_indicator', defs=RI_DEFS, cls='unbounded', note='single operations from arbitrary member values; the occupancy sequence check uses 4 operations from a quiescent state'),
     dict(id='empty', entry='h_empty', defs=RI_DEFS, cls='shape-complete', note='0..3 readers inside, no interference'),
-    dict(id='empty_int', entry='h_empty', mode='INT', defs=RI_DEFS, cls='shape-complete', note=ENV3),
+    dict(id='empty_int', entry='h_empty', mode='INT', defs=RI_DEFS, cls='shape-complete', note=ENV_REAL),
+    dict(id='empty_int_anybase', entry='h_empty', mode='INT', defs=dict(RI_DEFS, XV_BASE_ARBITRARY=1), tiers=['thorough'], cls='shape-complete',
+         note=ENV_REAL + '; base: any member values for which the indicator\'s own empty() says empty (wrap-around included)'),
     dict(id='guard', entry='h_guard', defs=RI_DEFS, cls='unbounded'),
     dict(id='ctor', entry='h_ctor', defs=RI_DEFS, cls='unbounded'),
     dict(id='wait', entry='h_wait', defs=RI_DEFS, cls='shape-complete', note='SEQ: returns only from states in which nobody is on that indicator'),
@@ -192,6 +196,7 @@ UNIT = dict(
   },
   loop_obligation={'WAIT': 'lr.wait.spins_until_empty'},
   replays={'lr.update.order': dict(src='replay_update.cpp'), 'lr.update.mutex': dict(src='replay_update.cpp'), 'lr.toggle.order': dict(src='replay_update.cpp'),
-           'lr.read.bracket': dict(src='replay_read.cpp'), 'lr.indicator.counts': dict(src='replay_read.cpp')},
+           'lr.read.bracket': dict(src='replay_read.cpp'), 'lr.indicator.counts': dict(src='replay_read.cpp'),
+           'lr.indicator.empty_linearizable': dict(src='replay_empty.cpp', no_inputs=True)},
   canaries=['ctor.one', 'ctor.two', 'empty.false', 'empty.true', 'empty_int.false_because_someone_came', 'empty_int.old_reader_stays_others_cycle', 'empty_int.true_after_the_last_one_left', 'env_closed.reached', 'guard.v0', 'guard.v1', 'indicator.arrive', 'indicator.depart', 'indicator.empty', 'indicator.get', 'indicator.nonempty', 'indicator.sequence_back_to_empty', 'indicator.sequence_four_inside', 'read.functor_threw', 'read.left', 'read.returned', 'read.right', 'read.v0', 'read.v1', 'read_int.indicator_moved', 'read_int.version_moved', 'read_seq.alone', 'read_seq.returned', 'read_seq.three_others_inside', 'read_seq.threw', 'toggle.v0', 'toggle.v1', 'toggle_int.arrived_on_new_version', 'toggle_int.new_reader_inside', 'update.left_first', 'update.right_first', 'update.throw_first', 'update.throw_second', 'update2.done', 'update2_int.reader_cycled_twice', 'update2_int.reader_inside_at_end', 'update_int.arrived_between_switch_and_toggle_old_version', 'update_int.arrived_between_switch_and_toggle_stale_version', 'update_int.reader_on_new_instance_during_second_application', 'update_int.reader_on_old_instance_during_first_application', 'wait.idx0', 'wait.idx1', 'wait.returned', 'wait_int.other_readers_moved', 'wait_int.reader_cycled', 'wait_int.reader_on_other_indicator'],
 )
